@@ -10,7 +10,7 @@ use crate::sut::*;
 use crate::worker::*;
 use serde_json::{json, Value};
 
-pub const FAULTS: [&str; 12] = [
+pub const FAULTS: [&str; 15] = [
     "absent",
     "pass",
     "slow_pass",
@@ -23,6 +23,9 @@ pub const FAULTS: [&str; 12] = [
     "empty_ok_no_read",
     "slow_fail",
     "close_stdin_then_fail",
+    "partial_out_kill",
+    "partial_out_fail",
+    "partial_out_term",
 ];
 
 pub const WATCHDOG_S: f64 = 60.0;
